@@ -105,149 +105,248 @@ func baseVar(info *types.Info, e ast.Expr) *types.Var {
 	}
 }
 
+// paramIndex returns the position of v among the parameters of fd (-1 if it is not one).
+func paramIndex(info *types.Info, fd *ast.FuncDecl, v *types.Var) int {
+	i := 0
+	for _, f := range fd.Type.Params.List {
+		for _, nm := range f.Names {
+			if info.Defs[nm] == types.Object(v) {
+				return i
+			}
+			i++
+		}
+	}
+	return -1
+}
+
+func paramVar(fn *core.Fn, idx int) *types.Var {
+	i := 0
+	for _, f := range fn.Decl.Type.Params.List {
+		for _, nm := range f.Names {
+			if i == idx {
+				v, _ := fn.Pkg.TypesInfo.Defs[nm].(*types.Var)
+				return v
+			}
+			i++
+		}
+	}
+	return nil
+}
+
+// counterOps counts Add-like and reset-like operations on counter v inside
+// root, following the counter into module helpers that receive its address.
+func counterOps(c *core.Ctx, info *types.Info, root ast.Node, v *types.Var, depth int, adds, resets *int, escaped *bool) {
+	core.InspectAll(root, func(n ast.Node) bool {
+		call, ok := n.(*ast.CallExpr)
+		if !ok {
+			return true
+		}
+		if recv, name, ok := atomicMethod(info, call); ok && baseVar(info, recv) == v {
+			switch name {
+			case "Add", "Incr":
+				*adds++
+			case "Set", "Swap", "CompareAndSwap", "Sub", "Decr":
+				*resets++
+			}
+			return true
+		}
+		for i, a := range call.Args {
+			if baseVar(info, a) != v {
+				continue
+			}
+			if _, isCall := ast.Unparen(a).(*ast.CallExpr); isCall {
+				continue
+			}
+			if _, _, isM := atomicMethod(info, call); isM {
+				continue
+			}
+			fn := c.FnOf(core.CalleeFunc(info, call))
+			pv := (*types.Var)(nil)
+			if fn != nil && fn.Decl.Body != nil {
+				pv = paramVar(fn, i)
+			}
+			if pv == nil || depth == 0 {
+				if tv := info.TypeOf(a); tv != nil {
+					if _, isPtr := tv.(*types.Pointer); isPtr {
+						*escaped = true
+					}
+				}
+				continue
+			}
+			counterOps(c, fn.Pkg.TypesInfo, fn.Decl.Body, pv, depth-1, adds, resets, escaped)
+		}
+		return true
+	})
+}
+
+// counterOrigins resolves the atomic2.Int64 variable v (a local, or a pointer
+// parameter) to the local counters it may denote.
+func counterOrigins(c *core.Ctx, b c03.MBody, v *types.Var, depth int) (out []*counter, unknown bool) {
+	info := b.Pkg.TypesInfo
+	if v == nil {
+		return nil, true
+	}
+	if _, isPtr := v.Type().(*types.Pointer); !isPtr {
+		if v.IsField() || v.Parent() == nil || v.Parent() == v.Pkg().Scope() {
+			return nil, true
+		}
+		return []*counter{{obj: v, in: b, decl: b.Decl}}, false
+	}
+	idx := paramIndex(info, b.Decl, v)
+	if idx < 0 || b.Lit != nil || depth == 0 {
+		return nil, true
+	}
+	declObj, _ := info.Defs[b.Decl.Name].(*types.Func)
+	calls := c03.CallsTo(c, declObj)
+	if len(calls) == 0 {
+		return nil, true
+	}
+	for _, cs := range calls {
+		if idx >= len(cs.Call.Args) {
+			return nil, true
+		}
+		o, u := counterOrigins(c, cs.In, baseVar(cs.In.Pkg.TypesInfo, cs.Call.Args[idx]), depth-1)
+		out = append(out, o...)
+		unknown = unknown || u
+	}
+	return out, unknown
+}
+
+// loopAround reports whether node (in body b) executes repeatedly: it lies in
+// a loop of b that does not enclose pos, or b is a function whose call sites do.
+func loopAround(c *core.Ctx, b c03.MBody, node ast.Node, pos token.Pos, depth int) bool {
+	for _, pn := range core.PathTo(b.Decl.Body, node) {
+		switch l := pn.(type) {
+		case *ast.ForStmt, *ast.RangeStmt:
+			if l != node && !(l.Pos() <= pos && pos < l.End()) {
+				return true
+			}
+		}
+	}
+	if depth == 0 {
+		return false
+	}
+	declObj, _ := b.Pkg.TypesInfo.Defs[b.Decl.Name].(*types.Func)
+	for _, cs := range c03.CallsTo(c, declObj) {
+		if loopAround(c, cs.In, cs.Call, pos, depth-1) {
+			return true
+		}
+	}
+	return false
+}
+
 func r1(c *core.Ctx) {
 	const rule = "R1.double-count"
 	pk := c.Pkg(c03.DbSync)
 	info := pk.TypesInfo
-	// counters: locals of type atomic2.Int64 declared in dbSync bodies
-	var counters []*counter
+	// (a) every accumulation `dst += k.Get()` / `dst = dst + k.Get()` in dbSync
+	nAcc := 0
+	accumulated := map[*types.Var]bool{}
+	for _, b := range c03.AllBodies(c) {
+		if b.Pkg != pk {
+			continue
+		}
+		b := b
+		core.Inspect(b.Root(), func(n ast.Node) bool {
+			x, ok := n.(*ast.AssignStmt)
+			if !ok || len(x.Lhs) != len(x.Rhs) {
+				return true
+			}
+			for i, r := range x.Rhs {
+				var src *types.Var
+				ast.Inspect(r, func(m ast.Node) bool {
+					if call, ok := m.(*ast.CallExpr); ok {
+						if recv, name, ok := atomicMethod(info, call); ok && name == "Get" && baseVar(info, recv) != nil {
+							src = baseVar(info, recv)
+						}
+					}
+					return true
+				})
+				if src == nil {
+					continue
+				}
+				acc := x.Tok == token.ADD_ASSIGN
+				if x.Tok == token.ASSIGN {
+					if be, ok := ast.Unparen(r).(*ast.BinaryExpr); ok && be.Op == token.ADD && (core.SameRef(info, be.X, x.Lhs[i]) || core.SameRef(info, be.Y, x.Lhs[i])) {
+						acc = true
+					}
+				}
+				if !acc {
+					continue
+				}
+				nAcc++
+				dst := "local"
+				if f := core.FieldOf(info, x.Lhs[i]); f != nil {
+					dst = f.Name()
+				}
+				key := dst + "+=cumulative-counter"
+				ks, unknown := counterOrigins(c, b, src, 3)
+				if unknown || len(ks) == 0 {
+					c.Undecidedf(rule, key, x.Pos(), "`%s`: cannot resolve the counter that is read", c.Src(x))
+					continue
+				}
+				bad := false
+				for _, k := range ks {
+					accumulated[k.obj] = true
+					escaped := false
+					counterOps(c, k.in.Pkg.TypesInfo, k.decl.Body, k.obj, 3, &k.adds, &k.reset, &escaped)
+					switch {
+					case escaped:
+						c.Undecidedf(rule, key, x.Pos(), "the counter's address is handed to code the rule does not follow")
+						bad = true
+					case k.reset == 0 && k.adds > 0 && loopAround(c, b, x, k.obj.Pos(), 3):
+						bad = true
+						c.Check(rule, key, x.Pos(), false, fmt.Sprintf(
+							"`%s` runs on every iteration of a loop, but the counter is cumulative (only Add, never reset): each iteration adds the whole total again, so `%s` grows by the sum of all totals. "+
+								"Witness: the source sends 1 KiB per second for 3 s after the full sync; the counter reads 1024, 2048, 3072 at the three ticks and the acknowledged offsets are start+1024, start+3072, start+6144 instead of start+1024, +2048, +3072: the ACK runs ahead of what was received, and the same field is the PSYNC offset after a reconnect and the base of every checkpoint offset",
+							c.Src(x), c.Src(x.Lhs[i])))
+					case k.adds == 0:
+						c.Undecidedf(rule, key, x.Pos(), "`%s`: accumulation of a counter that is never added to", c.Src(x))
+						bad = true
+					}
+					if bad {
+						break
+					}
+				}
+				if !bad {
+					c.Okf(rule, key, x.Pos(), "accumulated once, or the counter is reset between reads")
+				}
+			}
+			return true
+		})
+	}
+	// (b) the remaining counters: their total is never accumulated
 	perDecl := map[*ast.FuncDecl]int{}
+	n := 0
 	for _, b := range c03.AllBodies(c) {
 		if b.Pkg != pk || b.Lit != nil {
 			continue
 		}
 		b := b
-		core.InspectAll(b.Decl.Body, func(n ast.Node) bool {
-			vs, ok := n.(*ast.ValueSpec)
+		core.InspectAll(b.Decl.Body, func(m ast.Node) bool {
+			vs, ok := m.(*ast.ValueSpec)
 			if !ok {
 				return true
 			}
 			for _, nm := range vs.Names {
 				v, _ := info.Defs[nm].(*types.Var)
-				if v != nil && strings.HasSuffix(core.NamedTypePath(v.Type()), atomicPkg+".Int64") {
-					if _, isPtr := v.Type().(*types.Pointer); isPtr {
-						continue
-					}
-					perDecl[b.Decl]++
-					counters = append(counters, &counter{obj: v, in: b, decl: b.Decl, ord: perDecl[b.Decl]})
+				if v == nil || !strings.HasSuffix(core.NamedTypePath(v.Type()), atomicPkg+".Int64") {
+					continue
+				}
+				if _, isPtr := v.Type().(*types.Pointer); isPtr {
+					continue
+				}
+				n++
+				perDecl[b.Decl]++
+				if !accumulated[v] {
+					c.Okf(rule, fmt.Sprintf("%s/counter#%d", b.Decl.Name.Name, perDecl[b.Decl]), v.Pos(), "the counter's total is never accumulated into another variable")
 				}
 			}
 			return true
 		})
 	}
-	if len(counters) == 0 {
+	if n == 0 {
 		c.Undecidedf(rule, "counters", token.NoPos, "no atomic2.Int64 local found in dbSync")
-		return
-	}
-	for _, k := range counters {
-		escaped := false
-		type use struct {
-			stmt ast.Node
-			root ast.Node
-			dst  ast.Expr
-			tok  token.Token
-		}
-		var uses []use
-		// every mention of the counter inside its declaring function (closures included)
-		core.InspectAll(k.decl.Body, func(n ast.Node) bool {
-			switch x := n.(type) {
-			case *ast.CallExpr:
-				if recv, name, ok := atomicMethod(info, x); ok && baseVar(info, recv) == k.obj {
-					switch name {
-					case "Add", "Incr":
-						k.adds++
-					case "Set", "Swap", "CompareAndSwap", "Sub", "Decr":
-						k.reset++
-					}
-					return true
-				}
-				// passed by address to a helper: look at what the helper calls on it
-				for _, a := range x.Args {
-					if baseVar(info, a) == k.obj {
-						if _, isAddr := ast.Unparen(a).(*ast.UnaryExpr); isAddr {
-							if fn := c.FnOf(core.CalleeFunc(info, x)); fn != nil && fn.Decl.Body != nil {
-								core.InspectAll(fn.Decl.Body, func(m ast.Node) bool {
-									if call, ok := m.(*ast.CallExpr); ok {
-										if _, name, ok := atomicMethod(fn.Pkg.TypesInfo, call); ok {
-											switch name {
-											case "Add", "Incr":
-												k.adds++
-											case "Set", "Swap", "CompareAndSwap", "Sub", "Decr":
-												k.reset++
-											}
-										}
-									}
-									return true
-								})
-							} else {
-								escaped = true
-							}
-						}
-					}
-				}
-			case *ast.AssignStmt:
-				// dst += k.Get()   or   dst = dst + k.Get()
-				for i, r := range x.Rhs {
-					if len(x.Lhs) != len(x.Rhs) {
-						break
-					}
-					hasGet := false
-					ast.Inspect(r, func(m ast.Node) bool {
-						if call, ok := m.(*ast.CallExpr); ok {
-							if recv, name, ok := atomicMethod(info, call); ok && name == "Get" && baseVar(info, recv) == k.obj {
-								hasGet = true
-							}
-						}
-						return true
-					})
-					if !hasGet {
-						continue
-					}
-					acc := x.Tok == token.ADD_ASSIGN
-					if x.Tok == token.ASSIGN {
-						if be, ok := ast.Unparen(r).(*ast.BinaryExpr); ok && be.Op == token.ADD && (core.SameRef(info, be.X, x.Lhs[i]) || core.SameRef(info, be.Y, x.Lhs[i])) {
-							acc = true
-						}
-					}
-					if acc {
-						uses = append(uses, use{stmt: x, dst: x.Lhs[i], tok: x.Tok})
-					}
-				}
-			}
-			return true
-		})
-		key := fmt.Sprintf("%s/counter#%d", k.decl.Name.Name, k.ord)
-		pos := k.obj.Pos()
-		switch {
-		case escaped:
-			c.Undecidedf(rule, key, pos, "the counter's address is handed to code the rule does not follow")
-		case len(uses) == 0:
-			c.Okf(rule, key, pos, "the counter's total is never accumulated into another variable (%d adds, %d resets)", k.adds, k.reset)
-		default:
-			for _, u := range uses {
-				// the loop must enclose the accumulation but not the counter's declaration
-				inLoop := false
-				for _, pn := range core.PathTo(k.decl.Body, u.stmt) {
-					switch l := pn.(type) {
-					case *ast.ForStmt, *ast.RangeStmt:
-						if !(l.Pos() <= k.obj.Pos() && k.obj.Pos() < l.End()) {
-							inLoop = true
-						}
-					}
-				}
-				switch {
-				case k.reset == 0 && k.adds > 0 && inLoop:
-					c.Check(rule, key, u.stmt.Pos(), false, fmt.Sprintf(
-						"`%s` runs on every iteration of a loop, but the counter is cumulative (only Add, never reset): each iteration adds the whole total again, so `%s` grows by the sum of all totals. "+
-							"Witness: the source sends 1 KiB per second for 3 s after the full sync; the counter reads 1024, 2048, 3072 at the three ticks and the acknowledged offsets are start+1024, start+3072, start+6144 instead of start+1024, +2048, +3072: the ACK runs ahead of what was received, and the same field is the PSYNC offset after a reconnect and the base of every checkpoint offset",
-						c.Src(u.stmt), c.Src(u.dst)))
-				case k.reset > 0 || !inLoop:
-					c.Okf(rule, key, u.stmt.Pos(), "accumulated once, or the counter is reset between reads")
-				default:
-					c.Undecidedf(rule, key, u.stmt.Pos(), "`%s`: accumulation of a counter that is never added to", c.Src(u.stmt))
-				}
-			}
-		}
 	}
 }
 
@@ -301,73 +400,67 @@ func r2(c *core.Ctx) {
 		}
 		return true
 	})
-	// call sites
+	// call sites; the argument is followed through parameters, locals and module helpers to its leaves
 	n := 0
 	for _, cs := range c03.CallsTo(c, ack.Obj) {
 		n++
-		ci := cs.In.Pkg.TypesInfo
 		key := fmt.Sprintf("arg/%s", cs.In.Name)
 		if len(cs.Call.Args) != 2 {
 			c.Undecidedf(rule, key, cs.Call.Pos(), "unexpected arity")
 			continue
 		}
-		arg := cs.Call.Args[1]
-		// is the call on the arm that runs once the full sync is done?
-		afterFull := false
-		for _, pn := range core.PathTo(cs.In.Root(), cs.Call) {
-			if cc, ok := pn.(*ast.CommClause); ok && cc.Comm != nil {
-				ast.Inspect(cc.Comm, func(m ast.Node) bool {
-					if u, ok := m.(*ast.UnaryExpr); ok && u.Op == token.ARROW && core.IsFieldNamed(ci, u.X, c03.Syncer, "WaitFull") {
-						afterFull = true
-					}
-					return true
-				})
-			}
-		}
-		if v, isConst := core.IntConst(ci, arg); isConst {
-			if v == 0 && !afterFull {
-				c.Okf(rule, key, cs.Call.Pos(), "ACK 0 while the full sync is still running")
-			} else {
-				c.Failf(rule, key, cs.Call.Pos(), "REPLCONF ACK is sent with the constant %d once the incremental phase runs: the acknowledged offset is not `start offset + bytes consumed`", v)
-			}
-			continue
-		}
-		// summands
-		var terms []ast.Expr
-		var split func(e ast.Expr)
-		split = func(e ast.Expr) {
-			e = ast.Unparen(e)
-			if be, ok := e.(*ast.BinaryExpr); ok && be.Op == token.ADD {
-				split(be.X)
-				split(be.Y)
-				return
-			}
-			terms = append(terms, e)
-		}
-		split(arg)
-		base, bad := 0, ""
-		for _, t := range terms {
-			switch {
-			case c03.IsSourceOffset(ci, t):
-				base++
-			default:
-				if call, ok := t.(*ast.CallExpr); ok {
-					if recv, name, ok := atomicMethod(ci, call); ok && name == "Get" && cnt != nil && baseVar(ci, recv) == cnt {
-						continue
-					}
+		for _, lf := range ackLeaves(c, cs.In, cs.Call.Args[1], cs.Call, false, 3) {
+			ci := lf.b.Pkg.TypesInfo
+			arg := lf.e
+			afterFull := lf.gated
+			if v, isConst := core.IntConst(ci, arg); isConst {
+				if v == 0 && !afterFull {
+					c.Okf(rule, key, arg.Pos(), "ACK 0 while the full sync is still running")
+				} else {
+					c.Failf(rule, key, arg.Pos(), "REPLCONF ACK is sent with the constant %d: the acknowledged offset is not `start offset + bytes consumed`", v)
 				}
-				bad = c.Src(t)
+				continue
 			}
-		}
-		switch {
-		case bad == "" && base == 1:
-			c.Okf(rule, key, cs.Call.Pos(), "ACK argument is ds.sourceOffset%s", map[bool]string{true: " + the copy counter", false: ""}[len(terms) > 1])
-		case bad == "" && base == 0:
-			c.Failf(rule, key, cs.Call.Pos(), "REPLCONF ACK is sent with `%s`, which lacks the offset announced by the source at sync start: the source sees an offset far behind/unrelated to its own and may drop the link", c.Src(arg))
-		case base > 1:
-			c.Failf(rule, key, cs.Call.Pos(), "REPLCONF ACK adds ds.sourceOffset %d times", base)
-		default:
-			c.Undecidedf(rule, key, cs.Call.Pos(), "ACK argument has a summand `%s` that is neither ds.sourceOffset nor the copy counter", bad)
+			// summands
+			var terms []ast.Expr
+			var split func(e ast.Expr)
+			split = func(e ast.Expr) {
+				e = ast.Unparen(e)
+				if be, ok := e.(*ast.BinaryExpr); ok && be.Op == token.ADD {
+					split(be.X)
+					split(be.Y)
+					return
+				}
+				terms = append(terms, e)
+			}
+			split(arg)
+			base, bad := 0, ""
+			for _, t := range terms {
+				switch {
+				case c03.IsSourceOffset(ci, t):
+					base++
+				default:
+					if call, ok := t.(*ast.CallExpr); ok {
+						if recv, name, ok := atomicMethod(ci, call); ok && name == "Get" && cnt != nil {
+							ks, unknown := counterOrigins(c, lf.b, baseVar(ci, recv), 3)
+							if !unknown && len(ks) == 1 && ks[0].obj == cnt {
+								continue
+							}
+						}
+					}
+					bad = c.Src(t)
+				}
+			}
+			switch {
+			case bad == "" && base == 1:
+				c.Okf(rule, key, arg.Pos(), "ACK argument is ds.sourceOffset%s", map[bool]string{true: " + the copy counter", false: ""}[len(terms) > 1])
+			case bad == "" && base == 0:
+				c.Failf(rule, key, arg.Pos(), "REPLCONF ACK is sent with `%s`, which lacks the offset announced by the source at sync start: the source sees an offset far behind/unrelated to its own and may drop the link", c.Src(arg))
+			case base > 1:
+				c.Failf(rule, key, arg.Pos(), "REPLCONF ACK adds ds.sourceOffset %d times", base)
+			default:
+				c.Undecidedf(rule, key, arg.Pos(), "ACK argument has a summand `%s` that is neither ds.sourceOffset nor the copy counter", bad)
+			}
 		}
 	}
 	if n == 0 {
@@ -443,7 +536,11 @@ func r2(c *core.Ctx) {
 	core.Inspect(copyFn.Decl.Body, func(m ast.Node) bool {
 		if call, ok := m.(*ast.CallExpr); ok && len(call.Args) == 1 {
 			if f := core.CalleeFunc(info, call); f != nil && f.Name() == "Write" {
-				if se, ok := ast.Unparen(call.Args[0]).(*ast.SliceExpr); ok && se.Low == nil && se.High != nil && c03.IsObj(info, nObj)(se.High) {
+				arg := call.Args[0]
+				if o, ok := c03.SoleOrigin(info, copyFn.Decl.Body, arg); ok && o.Expr != nil && o.Op == 0 && !o.Range && o.Res <= 0 {
+					arg = o.Expr // `chunk := p[:n]`
+				}
+				if se, ok := ast.Unparen(arg).(*ast.SliceExpr); ok && se.Low == nil && se.High != nil && c03.IsObj(info, nObj)(se.High) {
 					write = call
 				}
 			}
@@ -460,6 +557,104 @@ func r2(c *core.Ctx) {
 			c.Undecidedf(rule, "copy-counter/after-write", addCall.Pos(), "bytes can be counted before they were handed to the pipe: not the known copy-then-count order")
 		}
 	}
+}
+
+type ackLeaf struct {
+	e     ast.Expr
+	b     c03.MBody
+	gated bool // evaluated under `case <-ds.WaitFull:` (the full sync is done)
+}
+
+func declBody(c *core.Ctx, fd *ast.FuncDecl) (c03.MBody, bool) {
+	for _, b := range c03.AllBodies(c) {
+		if b.Lit == nil && b.Decl == fd {
+			return b, true
+		}
+	}
+	return c03.MBody{}, false
+}
+
+// ackLeaves follows an expression through parameters (to the arguments of all
+// call sites), locals and single-result module helpers (to their returned
+// expressions) and reports the expressions it ends in.
+func ackLeaves(c *core.Ctx, b c03.MBody, e ast.Expr, at ast.Node, gated bool, depth int) []ackLeaf {
+	info := b.Pkg.TypesInfo
+	for _, pn := range core.PathTo(b.Decl.Body, at) {
+		if cc, ok := pn.(*ast.CommClause); ok && cc.Comm != nil {
+			ast.Inspect(cc.Comm, func(m ast.Node) bool {
+				if u, ok := m.(*ast.UnaryExpr); ok && u.Op == token.ARROW && core.IsFieldNamed(info, u.X, c03.Syncer, "WaitFull") {
+					gated = true
+				}
+				return true
+			})
+		}
+	}
+	e = stripConv(info, e)
+	leaf := []ackLeaf{{e, b, gated}}
+	if depth == 0 {
+		return leaf
+	}
+	switch x := e.(type) {
+	case *ast.Ident:
+		v, _ := core.ObjOf(info, x).(*types.Var)
+		if v == nil {
+			return leaf
+		}
+		if idx := paramIndex(info, b.Decl, v); idx >= 0 {
+			declObj, _ := info.Defs[b.Decl.Name].(*types.Func)
+			var out []ackLeaf
+			for _, cs := range c03.CallsTo(c, declObj) {
+				if idx < len(cs.Call.Args) && !cs.Call.Ellipsis.IsValid() {
+					out = append(out, ackLeaves(c, cs.In, cs.Call.Args[idx], cs.Call, gated, depth-1)...)
+				} else {
+					return leaf
+				}
+			}
+			if len(out) == 0 {
+				return leaf
+			}
+			return out
+		}
+		var out []ackLeaf
+		for _, o := range c03.Origins(info, b.Decl.Body, x) {
+			if o.Zero {
+				continue
+			}
+			if o.Expr == nil || o.Op != 0 || o.Range || o.Res > 0 || ast.Unparen(o.Expr) == ast.Expr(x) {
+				return leaf
+			}
+			var pos ast.Node = o.Expr
+			out = append(out, ackLeaves(c, b, o.Expr, pos, gated, depth-1)...)
+		}
+		if len(out) == 0 {
+			return leaf
+		}
+		return out
+	case *ast.CallExpr:
+		if _, _, isAtomic := atomicMethod(info, x); isAtomic {
+			return leaf
+		}
+		fn := c.FnOf(core.CalleeFunc(info, x))
+		if fn == nil || fn.Decl.Body == nil || !strings.HasPrefix(fn.Pkg.PkgPath, core.Module) || fn.Obj.Type().(*types.Signature).Results().Len() != 1 {
+			return leaf
+		}
+		fb, ok := declBody(c, fn.Decl)
+		if !ok {
+			return leaf
+		}
+		var out []ackLeaf
+		core.Inspect(fn.Decl.Body, func(m ast.Node) bool {
+			if ret, ok := m.(*ast.ReturnStmt); ok && len(ret.Results) == 1 {
+				out = append(out, ackLeaves(c, fb, ret.Results[0], ret, gated, depth-1)...)
+			}
+			return true
+		})
+		if len(out) == 0 {
+			return leaf
+		}
+		return out
+	}
+	return leaf
 }
 
 func isLenCall(info *types.Info, e ast.Expr) bool {
@@ -496,7 +691,17 @@ func reconnectInLoop(c *core.Ctx) {
 	}
 	g := cfgq.Of(c.Program, fn)
 	isCopy := g.HasCall(func(call *ast.CallExpr, callee types.Object) bool { return callee == types.Object(cp.Obj) })
-	isPsync := g.HasCall(func(call *ast.CallExpr, callee types.Object) bool { return callee == types.Object(ps.Obj) })
+	info := fn.Pkg.TypesInfo
+	isPsync := g.HasCall(func(call *ast.CallExpr, callee types.Object) bool {
+		if callee == types.Object(ps.Obj) {
+			return true
+		}
+		// or a helper of the module that issues the PSYNC
+		return c03.CalleeHas(c, info, call, 2, func(i *types.Info, m ast.Node) bool {
+			cl, ok := m.(*ast.CallExpr)
+			return ok && core.CalleeFunc(i, cl) == ps.Obj
+		})
+	})
 	k := 0
 	for _, pt := range g.Points(isCopy) {
 		k++
